@@ -35,6 +35,7 @@ class ProgGen(object):
         self.ids = Counter()
         self.outcomes = {}       # final step text -> outcome
         self.flavour = {}        # final step text -> "sync" | "async"
+        self.text_pool = [] if self.o.get("p_repeat_text", 0.0) > 0 else None
 
     # -- helpers --------------------------------------------------------------
     def tags(self, extra=()):
@@ -113,10 +114,12 @@ class ProgGen(object):
                 # behave accepts a doc-string AND a table behind one step (context.text and context.table are both set)
                 st["doc"] = r.choice(["text above a table", "two\n  lines"])
         elif r.random() < o["p_doc"]:
-            st["doc"] = r.choice(["one line", "two\n  lines", ""])
+            st["doc"] = r.choice(["one line", "two\n  lines", "",
+                                  # a text that QUOTES Gherkin: the other delimiter and a line that reads like this very step
+                                  "as in:\n'''\n%s %s\n'''" % (kw if kw != "*" else "Given", text)])
         return st
 
-    def steps(self, n, placeholder=None, row_values=None, first_kw_ok=True):
+    def steps(self, n, placeholder=None, row_values=None, first_kw_ok=True, in_background=False):
         r = self.rng
         out = []
         last = None
@@ -127,7 +130,17 @@ class ProgGen(object):
             else:
                 kw = r.choice(["And", "But", "*"])
             use_ph = placeholder if (placeholder and r.random() < 0.6) else None
+            pool = getattr(self, "text_pool", None)
+            if pool is not None and pool and not use_ph and kw in ("Given", "When", "Then") and r.random() < self.o.get("p_repeat_text", 0.0):
+                # the text of a step of ANOTHER scenario again, possibly under another keyword (one definition serves them all here;
+                # projects may also define the same text once per step type)
+                out.append({"kw": kw, "text": r.choice(pool)})
+                self.repeated_texts = getattr(self, "repeated_texts", 0) + 1
+                continue
             out.append(self.step(kw, use_ph, row_values if use_ph else None))
+        if getattr(self, "text_pool", None) is not None and not in_background:
+            self.text_pool.extend(st["text"] for st in out if "<" not in st["text"] and st["text"][:1] == "k"
+                                  and st["text"] not in self.text_pool)
         return out
 
     def desc(self):
@@ -146,6 +159,8 @@ class ProgGen(object):
         nex = r.randint(1, o["max_examples"])
         examples = []
         values = []
+        # the column that feeds the parametrised tags: a heading is free text ("t", but also "first-name", "price/unit", "a+b")
+        tcol = r.choice(o.get("tag_columns") or ["t"])
         for ei in range(nex):
             nrows = r.randint(0 if r.random() < o["p_empty_examples"] else 1, o["max_rows"])
             rows = []
@@ -157,9 +172,9 @@ class ProgGen(object):
                 tagv = r.choice(o.get("tag_values") or o["tags"])
                 rows.append([v, tagv])
                 values.append(v)
-            header = ["x", "t"]
+            header = ["x", tcol]
             if r.random() < 0.3:          # different column order in this block
-                header = ["t", "x"]
+                header = [tcol, "x"]
                 rows = [[b, a] for a, b in rows]
             examples.append({"tags": self.tags(), "name": "E%d" % (ei + 1) if r.random() < 0.8 else "",
                              "header": header, "rows": rows})
@@ -169,7 +184,7 @@ class ProgGen(object):
             e = r.choice(examples)
             v = "%sv%d" % (name.lower(), self.ids.next())
             tagv = r.choice(o.get("tag_values") or o["tags"])
-            e["rows"].append([v, tagv] if e["header"] == ["x", "t"] else [tagv, v])
+            e["rows"].append([v, tagv] if e["header"] == ["x", tcol] else [tagv, v])
             values.append(v)
         if values and r.random() < o.get("p_empty_cell", 0.1):
             # one row whose cell is EMPTY (an optional word): the placeholder is replaced by nothing
@@ -183,13 +198,13 @@ class ProgGen(object):
             values[k] = ""
         extra = []
         if r.random() < o["p_param_tag"]:
-            extra.append(r.choice(["<t>", "p.<t>"]))
+            extra.append(r.choice(["<%s>", "p.<%s>"]) % tcol)
         if r.random() < o.get("p_reserved_tag", 0.0):
             # documented special placeholders in outline tags (rendered per row)
             extra.append(r.choice(["r<row.index>", "r<examples.index>", "q<row.id>", "n<examples.name>"]))
         if r.random() < o.get("p_unknown_param_tag", 0.15):
             # a tag whose placeholder is not a column of (all) the examples tables: dropped for those rows -- the other tags stay
-            extra.append(r.choice(["u.<nosuch>", "<nosuch>.<t>", "req.<req>"]))
+            extra.append(r.choice(["u.<nosuch>", "<nosuch>.<%s>" % tcol, "req.<req>"]))
         n = r.randint(1, o["max_steps"])
         # steps: placeholders <x> make per-row final texts
         steps = self.steps(n, "x", values or ["none"])
@@ -201,10 +216,12 @@ class ProgGen(object):
         n = r.randint(0 if r.random() < 0.1 else 1, 2)
         save = o["p_nonpass"]
         o["p_nonpass"] = save / 3.0
+        pool, self.text_pool = getattr(self, "text_pool", None), None
         try:
-            steps = self.steps(n)
+            steps = self.steps(n, in_background=True)
         finally:
             o["p_nonpass"] = save
+            self.text_pool = pool
         if steps and r.random() < o["p_bg_param"]:
             # a placeholder of the outlines' examples tables inside a background step: rendered per row for outline rows,
             # literal text for plain scenarios
@@ -237,6 +254,12 @@ class ProgGen(object):
                         "background": self.background() if r.random() < o["p_rule_background"] else None,
                         "items": self.items(rname, False)}
                 items.append(rule)
+            rules = [it for it in items if it["kind"] == "rule"]
+            if len(rules) >= 2 and r.random() < o.get("p_twin_rule_names", 0.0):
+                # two rules of one feature with the SAME title, or both without a title (legal; they are two rules)
+                twin = r.choice(["", rules[0]["name"]])
+                rules[0]["name"] = rules[1]["name"] = twin
+                self.twin_rule_names = True
             if nr and r.random() < 0.3:
                 # scenarios before rules is the usual layout; sometimes only rules
                 items = [it for it in items if it["kind"] == "rule"] or items
@@ -258,7 +281,10 @@ class ProgGen(object):
         r, o = self.rng, self.o
         nf = r.randint(min(o.get("min_features", 1), o["max_features"]), o["max_features"])
         feats = [self.feature(i) for i in range(nf)]
-        return {"features": feats, "outcomes": dict(self.outcomes), "flavour": dict(self.flavour)}
+        prog = {"features": feats, "outcomes": dict(self.outcomes), "flavour": dict(self.flavour)}
+        if getattr(self, "twin_rule_names", False):
+            prog["twin_rule_names"] = True
+        return prog
 
 
 # ---------------------------------------------------------------------------
